@@ -580,15 +580,7 @@ def logic_block_part(C):
         return VBool(z3.And(*out))
     C.helpers["modes_point_at"] = modes_point_at
     B = "BOUNDED: 3 modes"
-    C.fn("ModeController._player_turn_start", params=dict(player=ObjS("Player")),
-         ensures=[("T1: every game mode points at the player whose turn starts; other modes are untouched",
-                   "modes_point_at(player)")],
-         modifies=["self.machine.modes['mode0'].player", "self.machine.modes['mode1'].player",
-                   "self.machine.modes['mode2'].player"], raises={}, bounded=B)
-    C.fn("ModeController._player_turn_ended", params=dict(player=ObjS("Player")),
-         ensures=[("T2: between turns no game mode points at any player", "modes_point_at(None)")],
-         modifies=["self.machine.modes['mode0'].player", "self.machine.modes['mode1'].player",
-                   "self.machine.modes['mode2'].player"], raises={}, bounded=B)
+    # T1 / T2 (_player_turn_start / _player_turn_ended: which player the game modes point at) are in late_player_set()
 
 
 def mode_controller_set(pid):
@@ -601,6 +593,93 @@ def mode_controller_set(pid):
     c.replay_pid = "C11"
     c.only_verify = ["ModeController._ball_ending", "ModeController._mode_stopped_callback"]
     return c
+
+
+def late_player_set(pid="C11l"):
+    """a player added during another player's ball is in the player list at once, but his player_added event waits for the
+    player_adding queue: his first turn may start BEFORE it.  Whatever the order, the per-player list of modes to restart
+    exists from the turn start on (ball_starting iterates it, ball_ending appends to it; an unset player variable reads
+    as the int 0)"""
+    C = ContractSet(pid, "the turn of a player who is still being added")
+    C.replay_pid = "C11"
+    C.strings = False
+    C.cls("ModeI", fields=dict(is_game_mode=Bool, player=Opt(ObjS("PlayerV"))))
+    C.ext("ModeI.start", model=lambda I, env, a, k: (emit(I, "mode.start", mode=env["self"].ref), NONE)[1],
+          trusted_reason="Mode.start (C07)")
+
+    def restart_var(I, name):
+        """never set (reads as 0), or a list of 0..2 modes"""
+        k = I.ctx.fork(4)
+        if k == 0:
+            return VInt(0)
+        return I.new_list([I.fresh(ObjS("ModeI"), "%s[%d]" % (name, i)) for i in range(k - 1)], name)
+    C.cls("PlayerV", fields=dict(restart_modes_on_next_ball=Init(restart_var)))
+
+    def is_var(I, env, a, k):
+        assert I.pyconst(I.force(a[0])) == "restart_modes_on_next_ball"
+        return VBool(I.force(I.read_field(env["self"].ref, "restart_modes_on_next_ball")).tag == "list")
+    C.ext("PlayerV.is_player_var", model=is_var, pure=True,
+          trusted_reason="Player.is_player_var: whether the variable was ever set (an unset one reads as 0)")
+
+    def modes2(I, name):
+        return I.new_dict([("mode%d" % i, I.fresh(ObjS("ModeI"), "%s[%d]" % (name, i))) for i in range(2)], name)
+    C.cls("ModeController", file=MC, fields=dict(
+        machine=ObjS("MachineController", modes=Init(modes2), game=ObjS("GameI", player=ObjS("PlayerV"))),
+        active_modes=Init(lambda I, name: I.new_list([], name))))      # between turns every game mode has stopped
+    C.cls("GameI", fields=dict(player=ObjS("PlayerV")))
+    C.ext("ModeController.debug_log", model=common.noop, trusted_reason="logging")
+    def modes_point_at(I, target):
+        this = I.frames[0].env["self"].ref
+        modes = I.container(I.force(I.read_field(I.force(I.read_field(this, "machine")).ref, "modes")).ref)
+        out = []
+        for _, m in modes.entries:
+            g = I.truth(I.read_field(m.ref, "is_game_mode"))
+            cur = I.read_field(m.ref, "player")
+            old = I.read_field(m.ref, "player", heap=I.old_heap)
+            out.append(z3.If(g, I.eq(cur, target), I.eq(cur, old)))
+        return VBool(z3.And(*out))
+    C.helpers["modes_point_at"] = modes_point_at
+    C.helpers["is_list"] = lambda I, v: VBool(I.force(v).tag == "list")
+    C.helpers["n_mode_starts"] = lambda I: VInt(len(events_named(I, "mode.start")))
+    C.trace_helpers = {"n_mode_starts"}
+    C.fn("ModeController._player_turn_start", params=dict(player=ObjS("PlayerV"), kwargs=Opaque("Kwargs")),
+         loops={0: LoopSpec(invariant=[], unroll=True)},
+         ensures=[("PT0: from the start of a player's turn on his list of modes to restart exists - whether his "
+                   "player_added event has been handled or is still waiting for the player_adding queue (a player added "
+                   "during the previous player's ball): the ball-start and ball-end handlers iterate and append to it",
+                   "is_list(player.restart_modes_on_next_ball)"),
+                  ("T1: every game mode points at the player whose turn starts; other modes are untouched",
+                   "modes_point_at(player)"),
+                  ("modes collected for the player before are kept",
+                   "implies(is_list(old(player.restart_modes_on_next_ball)), player.restart_modes_on_next_ball is "
+                   "old(player.restart_modes_on_next_ball))")],
+         modifies=["player.restart_modes_on_next_ball", "self.machine.modes['mode0'].player",
+                   "self.machine.modes['mode1'].player"], raises={}, bounded="BOUNDED: 2 modes")
+    C.fn("ModeController._player_turn_ended", params=dict(player=ObjS("PlayerV"), kwargs=Opaque("Kwargs")),
+         loops={0: LoopSpec(invariant=[], unroll=True)},
+         ensures=[("T2: between turns no game mode points at any player", "modes_point_at(None)")],
+         modifies=["self.machine.modes['mode0'].player", "self.machine.modes['mode1'].player"], raises={},
+         bounded="BOUNDED: 2 modes")
+    C.fn("ModeController._player_added", params=dict(player=ObjS("PlayerV"), num=Int, kwargs=Opaque("Kwargs")),
+         ensures=[("PT1: the list exists once the player is announced; a list that exists already (the player's turn started "
+                   "before the announcement) is kept with what it holds",
+                   "is_list(player.restart_modes_on_next_ball) and implies(is_list(old(player.restart_modes_on_next_ball)), "
+                   "player.restart_modes_on_next_ball is old(player.restart_modes_on_next_ball))")],
+         modifies=["player.restart_modes_on_next_ball"], raises={}, allow_decorators=["classmethod"])
+    C.fn("ModeController._ball_starting", params=dict(queue=Opaque("Queue"), kwargs=Opaque("Kwargs")),
+         requires=[("PT0 held at the turn start that precedes every ball start (C06: player_turn_started comes before "
+                    "ball_starting) and nothing un-sets a player variable",
+                    "is_list(self.machine.game.player.restart_modes_on_next_ball)")],
+         loops={0: LoopSpec(invariant=[], unroll=True)},
+         ensures=[("every mode collected for the player is restarted once and the list starts empty for this ball",
+                   "n_mode_starts() == len(old(self.machine.game.player.restart_modes_on_next_ball)) and "
+                   "len(self.machine.game.player.restart_modes_on_next_ball) == 0")],
+         modifies=["self.machine.game.player.restart_modes_on_next_ball"], raises={},
+         bounded="BOUNDED: at most 2 modes to restart")
+    C.finite_checks.append(common.native_demo_check(
+        "c06_turn_of_player_being_added.py",
+        "a player whose player_adding queue is still held gets his turn when the previous player's ball ends"))
+    return C
 
 
 BONUS = "mpf/modes/bonus/code/bonus.py"
@@ -845,4 +924,4 @@ def build_extra():
     C4 = C13.build()
     C4.pid = "C11t"
     C4.only_verify = ["Timer.stop", "Timer.device_removed_from_mode"]
-    return [C2, C3, C4, scoring_set(), variable_player_set(), timer_var_set()]
+    return [C2, C3, C4, scoring_set(), variable_player_set(), timer_var_set(), late_player_set()]
